@@ -116,6 +116,61 @@ async fn scenario(log: &'static Log, via: &'static str, front: String, seq: &'st
             let ok_eof = net::wait_until(|| tst.eof.load(Ordering::SeqCst), ABSENCE_MS).await;
             ev.push(json!({"ev": "cgot", "dir": "up", "n": tst.got.lock().unwrap().len(), "eof": ok_eof}));
         }
+        // the application half-closes; the target keeps answering for `linger_s` seconds before it closes
+        "app-halfclose-long" => {
+            let linger_s: u64 = if n_down > 100000 { 62 } else { 12 };
+            let _ = awr.write_all(&up).await; ev.push(json!({"ev": "csent", "dir": "up", "n": n_up}));
+            let _ = awr.shutdown().await; ev.push(json!({"ev": "cclose", "dir": "up", "how": "shutdown(Write)"}));
+            let ok_eof = net::wait_until(|| tst.eof.load(Ordering::SeqCst), ABSENCE_MS).await;
+            ev.push(json!({"ev": "cgot", "dir": "up", "n": tst.got.lock().unwrap().len().min(n_up), "eof": ok_eof}));
+            let mut sent = 0usize; let mut got: Vec<u8> = Vec::new(); let mut eof = false;
+            let t0 = std::time::Instant::now();
+            while t0.elapsed() < Duration::from_secs(linger_s) {
+                let chunk = pgen::fill(kd, sent as u64, 64); sent += 64;
+                let _ = tcmd.send(TCmd::Send(chunk));
+                let (d, e) = drain(&mut ard, sent - got.len(), 400).await; got.extend_from_slice(&d); if e { eof = true; break; }
+                tokio::time::sleep(Duration::from_millis(350)).await;
+            }
+            ev.push(json!({"ev": "cother", "dir": "up", "ok": !eof && got == pgen::fill(kd, 0, got.len()) && got.len() == sent}));
+            ev.push(json!({"ev": "csent", "dir": "down", "n": sent}));
+            let _ = tcmd.send(TCmd::Close); ev.push(json!({"ev": "cclose", "dir": "down", "how": "target shutdown"}));
+            let (d2, e2) = if eof { (Vec::new(), true) } else { drain(&mut ard, 0, ABSENCE_MS).await };
+            got.extend_from_slice(&d2);
+            ev.push(json!({"ev": "cgot", "dir": "down", "n": if got == pgen::fill(kd, 0, got.len()) { got.len() } else { usize::MAX / 2 }, "eof": e2}));
+        }
+        // the target half-closes; the application keeps uploading for `linger_s` seconds before it closes
+        "target-close-long" => {
+            let linger_s: u64 = if n_up > 100000 { 62 } else { 12 };
+            let _ = tcmd.send(TCmd::Send(down.clone())); ev.push(json!({"ev": "csent", "dir": "down", "n": n_down}));
+            let _ = tcmd.send(TCmd::Close); ev.push(json!({"ev": "cclose", "dir": "down", "how": "target shutdown"}));
+            let (d, eof) = drain(&mut ard, n_down, ABSENCE_MS).await;
+            ev.push(json!({"ev": "cgot", "dir": "down", "n": if d == down[..d.len().min(down.len())] && d.len() <= down.len() { d.len() } else { usize::MAX / 2 }, "eof": eof}));
+            let mut sent = 0usize; let mut ok = true;
+            let t0 = std::time::Instant::now();
+            while t0.elapsed() < Duration::from_secs(linger_s) {
+                let chunk = pgen::fill(ku, sent as u64, 64); sent += 64;
+                if awr.write_all(&chunk).await.is_err() { ok = false; break; }
+                if !net::wait_until(|| tst.got.lock().unwrap().len() >= sent, 1500).await { ok = false; break; }
+                tokio::time::sleep(Duration::from_millis(350)).await;
+            }
+            ev.push(json!({"ev": "cother", "dir": "down", "ok": ok && !tst.eof.load(Ordering::SeqCst)}));
+            ev.push(json!({"ev": "csent", "dir": "up", "n": sent}));
+            let _ = awr.shutdown().await; ev.push(json!({"ev": "cclose", "dir": "up", "how": "shutdown(Write)"}));
+            let ok_eof = net::wait_until(|| tst.eof.load(Ordering::SeqCst), ABSENCE_MS).await;
+            let got = tst.got.lock().unwrap().clone();
+            ev.push(json!({"ev": "cgot", "dir": "up", "n": if got == pgen::fill(ku, 0, got.len()) { got.len() } else { usize::MAX / 2 }, "eof": ok_eof}));
+        }
+        // the application aborts (TCP reset): whatever had arrived, the target must still observe end-of-stream
+        "app-reset" => {
+            let _ = awr.write_all(&up).await; ev.push(json!({"ev": "csent", "dir": "up", "n": n_up}));
+            net::wait_until(|| tst.got.lock().unwrap().len() >= n_up.min(1), 1500).await;
+            let conn = ard.reunite(awr).ok();
+            if let Some(c) = conn { let _ = c.set_linger(Some(Duration::from_secs(0))); drop(c); }
+            ev.push(json!({"ev": "cclose", "dir": "up", "how": "reset"}));
+            let ok_eof = net::wait_until(|| tst.eof.load(Ordering::SeqCst), ABSENCE_MS).await;
+            let got = tst.got.lock().unwrap().clone();
+            ev.push(json!({"ev": "cgot", "dir": "up", "n": if got == up[..got.len().min(up.len())] && got.len() <= up.len() { got.len() } else { usize::MAX / 2 }, "eof": ok_eof}));
+        }
         // the application closes completely with data in flight
         _ => {
             let _ = awr.write_all(&up).await; ev.push(json!({"ev": "csent", "dir": "up", "n": n_up}));
@@ -155,6 +210,16 @@ pub fn run(args: &Args, _log: &Log) -> Result<(), String> {
                     // sibling streams on the same sessions: a little stagger
                     tokio::time::sleep(Duration::from_millis(5)).await;
                 }
+            }
+        }
+        // long half-closes (12 s; thorough also 62 s) and aborts, beside everything else
+        for via in ["socks5", "http"] {
+            for seq in ["app-halfclose-long", "target-close-long", "app-reset", "app-reset"] {
+                id += 1;
+                let front = if via == "socks5" { socks.clone() } else { http.clone() };
+                hs.push(tokio::spawn(scenario(logp, via, front, seq, *r.pick(&[1usize, 100, 5000]), *r.pick(&[1usize, 100, 5000]), args.seed, id)));
+                if thorough && seq != "app-reset" { id += 1; let front = if via == "socks5" { socks.clone() } else { http.clone() };
+                    hs.push(tokio::spawn(scenario(logp, via, front, seq, 100001, 100001, args.seed, id))); }
             }
         }
         for h in hs { let _ = h.await; }
